@@ -376,13 +376,15 @@ def random_run(chk, rnd, sizes, wcomp, rcomp, transport, fault_p):
         dead = None
         try:
             fx.sched.run(sim.RandomPolicy(random.Random(rnd.random()), stickiness=0.7), max_steps=2000000)
+        except sim.StepLimit as ex:
+            dead = str(ex)
         except sim.Deadlock as ex:
             # the writer died: the reader would wait for ever on a socket nobody closes; close the writer's end
             if fx.werr is not None or fx.wdone:
                 fx.net.a.closed = True
                 try:
-                    fx.sched.run(sim.FirstPolicy(), max_steps=100000)
-                except sim.Deadlock as ex2:
+                    fx.sched.run(sim.FirstPolicy(), max_steps=500000)
+                except (sim.Deadlock, sim.StepLimit) as ex2:
                     dead = str(ex2)
             else:
                 dead = str(ex)
